@@ -62,6 +62,44 @@ pub fn strategy() -> BoxedStrategy<HugeFan> {
                 3 => 1.min(k),
                 _ => d % (k + 1),
             };
+            // half of the filler cases replace the core by a "twin" core: a pattern over m <= 5 residues lifted to
+            // two floors whose labels are exactly 2^16 (or 2^17) apart, every pattern attack being copied on both
+            // floors, crossed between them, or kept on one side only - the analogue, at distance 2^16, of the
+            // residue-lifted frameworks of C10: whatever is indexed by id modulo 2^16 (stamps, short counters,
+            // truncated keys) is shared by the two twins of an argument
+            let mut core = core;
+            let (mut fillers, mut split) = (fillers, split);
+            if fillers > 0 && d % 2 == 1 {
+                let m = 2 + (d as usize / 7) % 4;
+                let mut att: Vec<(u8, u8)> = vec![];
+                let mut w = (d as u64).wrapping_mul(0x9E37_79B9_7F4A_7C15) ^ (target as u64) << 17 ^ (k as u64) << 40;
+                let edges = m + 2 + (d as usize / 11) % (2 * m);
+                for _ in 0..edges {
+                    w ^= w << 13;
+                    w ^= w >> 7;
+                    w ^= w << 17;
+                    let (ra, rb, kind) = ((w % m as u64) as u8, ((w >> 8) % m as u64) as u8, (w >> 16) % 7);
+                    let m8 = m as u8;
+                    match kind {
+                        0 | 1 => {
+                            att.push((ra, rb));
+                            att.push((m8 + ra, m8 + rb));
+                        }
+                        2 => {
+                            att.push((ra, m8 + rb));
+                            att.push((m8 + ra, rb));
+                        }
+                        3 => att.push((ra, rb)),
+                        4 => att.push((m8 + ra, m8 + rb)),
+                        5 => att.push((ra, m8 + rb)),
+                        _ => att.push((m8 + ra, rb)),
+                    }
+                }
+                core = AbsGraph { n: 2 * m, att };
+                split = m as u8;
+                let span = if fillers > 100_000 { 131_072 } else { 65_536 };
+                fillers = span - m as u32;
+            }
             HugeFan { core, target, k, defeated, repeated_line, attacker_defeated, fillers, split }
         })
         .boxed()
